@@ -85,3 +85,13 @@ mut("c20-apl-equals-negation", "C20", "types.go", "	return a.Negation == b.Negat
 mut("c20-svcb-pairs-length", "C20", "svcb.go", "		if err1 != nil || err2 != nil || !bytes.Equal(b1, b2) {\n			return false", "		if err1 != nil || err2 != nil || len(b1) != len(b2) || bytes.Equal(nil, []byte{1}) {\n			return false", "SVCB parameter values compared by length only")
 mut("c20-normalized-lowercases-rdata", "C20", "sanitize.go", "	for i := 0; i < len(b) && ttlEnd == 0; i++ {", "	for i := 0; i < len(b); i++ {", "Dedup key lower-cases the whole record text")
 mut("c20-nsec3-ignores-salt", "C20", "zduplicate.go", "	if r1.Salt != r2.Salt {\n		return false\n	}\n	if r1.HashLength != r2.HashLength {", "	if r1.HashLength != r2.HashLength {", "NSEC3 comparison ignores the salt")
+
+# ---- C02
+mut("c02-no-pointer-limit", "C02", "msg.go", "			if ptr++; ptr > maxCompressionPointers {", "			if ptr++; ptr > maxCompressionPointers && false {", "pointer-hop limit removed (loops never end while the budget lasts)")
+mut("c02-prealloc-from-count", "C02", "msg.go", "	// Don't pre-allocate, l may be under attacker control\n	var dst []RR", "	dst := make([]RR, 0, l)", "record slice pre-allocated from the attacker-controlled count")
+mut("c02-opt-no-length-check", "C02", "msg_helpers.go", "		if off+int(optlen) > len(msg) {\n			return nil, len(msg), &Error{err: \"overflow unpacking opt\"}\n		}", "", "EDNS0 option length not checked against the RDATA")
+mut("c02-nsec-window-33", "C02", "msg_helpers.go", "		if off+length > len(msg) {\n			return nsec, len(msg), &Error{err: \"overflowing NSEC(3) block in type bitmap\"}\n		}", "", "bitmap window length not checked against the RDATA")
+mut("c02-name-budget-removed", "C02", "msg.go", "			if budget <= 0 {\n				return \"\", lenmsg, ErrLongDomain\n			}", "", "255-octet budget removed while following pointers")
+mut("c02-svcb-alpn-overflow", "C02", "svcb.go", "		if i+length > len(b) {\n			return errors.New(\"bad svcbalpn: alpn array overflowing\")\n		}", "", "alpn id length not checked")
+mut("c02-apl-afdlen", "C02", "msg_helpers.go", "	if off+afdlen > len(msg) {\n		return APLPrefix{}, len(msg), &Error{err: \"overflow unpacking APL address\"}\n	}", "", "APL address length not checked against the RDATA (EQUIVALENT: the over-read makes off != end, so the record is still rejected with bad rdlength)")
+mut("c02-string-overflow", "C02", "msg_helpers.go", "	l := int(msg[off])\n	off++\n	if off+l > len(msg) {\n		return \"\", off, &Error{err: \"overflow unpacking txt\"}\n	}\n	var s strings.Builder", "	l := int(msg[off])\n	off++\n	var s strings.Builder", "character-string length not checked")
